@@ -390,6 +390,114 @@ def run_solution_equals(mutate=None):
     return dict(obls=obls, paths=n, sources=[L.info()], consistent=True)
 
 
+def run_data_equals(mutate=None):
+    """TDGLData.__eq__ / DynamicsData.__eq__ (dataclass_equals, array_safe_equals): what "compares equal" MEANS for the raw data of a step and the per-step
+    records.  Arrays are stand-ins (field, side, symbolic shape); np.allclose of a pair answers a free boolean and records which pair it was asked about.
+    Equal exactly when, for EVERY field, the two values of that field have the same shape and are close (scalars / other values: their own ==); a field
+    never compared cannot make the result True; values of different fields are never paired; the same object equals itself; objects of different classes
+    are unequal; the compared objects are not written."""
+    DATA = "tdgl.solution.data"
+    mut = [(o, n) for (m, o, n) in (mutate or []) if m == DATA]
+    calls, flags = [], {}
+
+    class Amb:
+        def __bool__(self):
+            raise ValueError("The truth value of an array with more than one element is ambiguous.")
+
+    class Arr:
+        """stand-in for numpy.ndarray"""
+        def __init__(self, field, side, shape):
+            self.field, self.side, self.shape = field, side, shape
+
+        def __deepcopy__(self, memo):
+            return Arr(self.field, self.side, self.shape)
+
+        def __eq__(self, o):
+            return Amb()
+        __hash__ = object.__hash__
+
+    class Comp:
+        def __init__(self, field, side):
+            self.field, self.side = field, side
+
+        def __deepcopy__(self, memo):
+            return Comp(self.field, self.side)
+
+        def __eq__(self, o):
+            if not isinstance(o, Comp):
+                return False
+            calls.append(("eq", self.field, o.field, {self.side, o.side}))
+            if self.field != o.field:
+                return False
+            if self.field not in flags:
+                flags[self.field] = SB(z3.Bool(f"same_{self.field}"))
+            return bool(flags[self.field])
+
+        def __ne__(self, o):
+            return not self.__eq__(o)
+        __hash__ = object.__hash__
+
+    class NPE(NP):
+        ndarray = Arr
+
+        @staticmethod
+        def allclose(a, b, rtol=1e-05, atol=1e-08, equal_nan=False):
+            calls.append(("allclose", a.field, b.field, {a.side, b.side}, rtol, atol))
+            key = "close_" + a.field + ("" if a.field == b.field else "_vs_" + b.field)
+            if key not in flags:
+                flags[key] = SB(z3.Bool(key))
+            return bool(flags[key])
+    rb = {"np": NPE}
+    L = instrument.load(DATA, rebind=rb, mutate=mut, vc=vcm.VC())
+
+    CASES = (("TDGLData", ("epsilon", "psi", "mu", "applied_vector_potential", "induced_vector_potential", "supercurrent", "normal_current"), ("step", "state")),
+             ("DynamicsData", ("dt", "time", "mu", "theta", "screening_iterations"), ()))
+
+    def body(case):
+        for cls_name, arrays, others in (case,):
+            del calls[:]
+            flags.clear()
+            cls = L[cls_name]
+            names = [f.name for f in dataclasses.fields(cls)]
+            check(f"C14.data_equals.harness_knows_every_field[{cls_name}]", z3.BoolVal(sorted(names) == sorted(arrays + others)), note=str(names))
+            shp = {}
+
+            def mk(side):
+                o = cls.__new__(cls)
+                for f in arrays:
+                    n_ = SI(z3.Int(f"n_{f}_{side}"))
+                    shp[(f, side)] = n_
+                    setattr(o, f, Arr(f, side, (n_,)))
+                for f in others:
+                    setattr(o, f, Comp(f, side))
+                return o
+            a, b = mk("a"), mk("b")
+            before = {(side, f): getattr(o, f) for side, o in (("a", a), ("b", b)) for f in names}
+            r = (a == b)
+            want = [z3.And(shp[(f, "a")].e == shp[(f, "b")].e, flags["close_" + f].e if "close_" + f in flags else z3.BoolVal(True)) for f in arrays]
+            want += [flags[f].e if f in flags else z3.BoolVal(True) for f in others]
+            compared = {c[1] for c in calls if c[0] in ("allclose", "eq")}
+            res_true = (r is True) or (isinstance(r, SB) and bool(r))
+            check(f"C14.data_equals.result_is_a_truth_value[{cls_name}]", z3.BoolVal(isinstance(r, (bool, SB))))
+            check(f"C14.data_equals.equal_only_if_every_field_was_compared[{cls_name}]", z3.BoolVal((not res_true) or compared >= set(names)), note=f"compared: {sorted(compared)} of {names}")
+            check(f"C14.data_equals.is_the_conjunction_over_the_fields_of_same_shape_and_close[{cls_name}]", z3.BoolVal(res_true) == z3.And(*want))
+            check(f"C14.data_equals.values_are_paired_field_by_field_across_the_two_objects[{cls_name}]", z3.BoolVal(all(c[1] == c[2] and c[3] == {"a", "b"} for c in calls)), note=str([c[:3] for c in calls if c[1] != c[2]][:3]))
+            check(f"C14.data_equals.closeness_not_looser_than_numpy_default[{cls_name}]", z3.BoolVal(all(c[4] <= 1e-05 and c[5] <= 1e-08 for c in calls if c[0] == "allclose")))
+            check(f"C14.data_equals.compared_objects_not_written[{cls_name}]", z3.BoolVal(all(getattr(o, f) is before[(side, f)] for side, o in (("a", a), ("b", b)) for f in names)))
+            check(f"C14.data_equals.an_object_equals_itself[{cls_name}]", z3.BoolVal((a == a) is True))
+
+    def body_classes():
+        t, d = L["TDGLData"], L["DynamicsData"]
+        x, y = t.__new__(t), d.__new__(d)
+        check("C14.data_equals.objects_of_different_classes_are_unequal", z3.BoolVal((x == y) is False and (y == x) is False and (x != y) is True))
+    obls, n = [], 0
+    for b_ in (lambda: body(CASES[0]), lambda: body(CASES[1]), body_classes):
+        o_, n_ = explore(b_, safety=False)
+        obls += o_
+        n += n_
+    return dict(obls=obls, paths=n, sources=[L.info()], consistent=True)
+
+
 def run_param_pickle(mutate=None):
     from checks import c16
     r = c16.run_induction(mutate)
@@ -401,7 +509,9 @@ def run_param_pickle(mutate=None):
 
 
 def _bounded_quick():
-    return native(0)
+    bad, n = native(0)
+    bad2, n2 = native_data_equals()
+    return bad + bad2, n + n2
 
 
 def units():
@@ -410,6 +520,7 @@ def units():
             Unit("save_time_step -> TDGLData.from_hdf5", "tdgl.solver.runner:DataHandler.save_fixed_values / save_time_step -> tdgl.solution.data:TDGLData.from_hdf5 / load_state_data",
                  lambda m=None: __import__("checks.writer_common", fromlist=["x"]).run_frame_round_trip(m, prefixes=("C14.", "C05.")), props=["C14", "C05"], timeout=300),
             Unit("Solution.equals", SOL + ":Solution.equals / __eq__", run_solution_equals, props=["C14"], timeout=300),
+            Unit("TDGLData / DynamicsData ==", "tdgl.solution.data:array_safe_equals, dataclass_equals, TDGLData.__eq__, DynamicsData.__eq__", run_data_equals, props=["C14"], timeout=300),
             Unit("Layer.to_hdf5/from_hdf5", "tdgl.device.layer:Layer.to_hdf5 / from_hdf5", run_layer, props=["C14"], timeout=300),
             Unit("EdgeMesh/Mesh/DynamicsData to_hdf5/from_hdf5", "tdgl.finite_volume.edge_mesh:EdgeMesh, tdgl.finite_volume.mesh:Mesh, tdgl.solution.data:DynamicsData", run_meshes, props=["C14"], timeout=300),
             Unit("Device.to_hdf5/from_hdf5", "tdgl.device.device:Device.to_hdf5 / Device.from_hdf5",
@@ -556,7 +667,49 @@ def replay_scope(unit, obl):
     return (obl or {}).get("name", "") if unit.startswith("CompositeParameter") else "unit"
 
 
+def native_data_equals():
+    """real numpy: data objects that differ in exactly one field (values or shape) are unequal, exact copies are equal"""
+    import copy
+    import numpy as np
+    from tdgl.solution.data import TDGLData, DynamicsData
+    rng = np.random.default_rng(0)
+    bad, n = [], 0
+    t0 = TDGLData(step=3, epsilon=rng.random(7), psi=rng.random(7) + 1j * rng.random(7), mu=rng.random(7), applied_vector_potential=rng.random((11, 2)),
+                  induced_vector_potential=rng.random((11, 2)), supercurrent=rng.random(11), normal_current=rng.random(11), state=dict(step=3, time=0.5, dt=0.1))
+    d0 = DynamicsData(dt=rng.random(9) + 0.1, mu=rng.random((2, 9)), theta=rng.random((2, 9)), screening_iterations=rng.integers(0, 5, 9))
+    for base in (t0, d0):
+        n += 1
+        if not (base == copy.deepcopy(base)) or not (base == base):
+            bad.append(dict(what=f"{type(base).__name__}: an exact copy does not compare equal"))
+        for f in dataclasses.fields(base):
+            v = getattr(base, f.name)
+            variants = []
+            if isinstance(v, np.ndarray):
+                w = v.copy().astype(complex if np.iscomplexobj(v) else float)
+                w.flat[-1] += 0.25
+                variants = [("one entry changed by 0.25", w), ("last entry / row dropped", v[:-1].copy() if v.ndim == 1 else v[:, :-1].copy())]
+            elif isinstance(v, dict):
+                variants = [("time entry changed", dict(v, time=0.75))]
+            elif isinstance(v, int):
+                variants = [("step + 1", v + 1)]
+            for what, w in variants:
+                other = copy.deepcopy(base)
+                object.__setattr__(other, f.name, w)
+                n += 1
+                try:
+                    same = bool(base == other) or bool(other == base)
+                except Exception as e:   # noqa
+                    same = False
+                if same:
+                    bad.append(dict(what=f"{type(base).__name__} objects that differ only in `{f.name}` ({what}) compare equal"))
+    return bad, n
+
+
 def replay(unit, obl):
+    if unit.startswith("TDGLData / DynamicsData"):
+        import tdgl
+        bad, n = native_data_equals()
+        return dict(confirmed=bool(bad), failing_input=bad[0] if bad else None, n_failing=len(bad), evaluations=n, tdgl_file=tdgl.__file__)
     if unit.startswith("CompositeParameter"):
         from checks import c16
         return c16.replay(unit, dict(obl, name=obl.get("name", "").replace("C14.parameter.", "C16.")))
@@ -581,6 +734,10 @@ MUTANTS = [
     dict(name="solutions compared without their per-step records", units=["Solution.equals"], edits=[(SOL, "            and (self.tdgl_data == other.tdgl_data)\n            and (self.dynamics == other.dynamics)\n", "            and (self.tdgl_data == other.tdgl_data)\n")]),
     dict(name="solutions compared without the loaded step", units=["Solution.equals"], edits=[(SOL, "            and (self.solve_step == other.solve_step)\n", "")]),
     dict(name="benign: == ignores the creation time", units=["Solution.equals"], edits=[(SOL, "        return self.equals(other, require_same_timestamp=True)", "        return self.equals(other)")], expect="pass"),
+    dict(name="arrays compared by shape only", units=["TDGLData / DynamicsData =="], edits=[("tdgl.solution.data", "        return a.shape == b.shape and np.allclose(a, b)", "        return a.shape == b.shape")]),
+    dict(name="last field of the data classes not compared", units=["TDGLData / DynamicsData =="], edits=[("tdgl.solution.data", "    return all(array_safe_equals(a1, a2) for a1, a2 in zip(t1, t2))", "    return all(array_safe_equals(a1, a2) for a1, a2 in zip(t1[:-1], t2))")]),
+    dict(name="data classes equal if ANY field agrees", units=["TDGLData / DynamicsData =="], edits=[("tdgl.solution.data", "    return all(array_safe_equals(a1, a2) for a1, a2 in zip(t1, t2))", "    return any(array_safe_equals(a1, a2) for a1, a2 in zip(t1, t2))")]),
+    dict(name="arrays compared with a loose tolerance", units=["TDGLData / DynamicsData =="], edits=[("tdgl.solution.data", "        return a.shape == b.shape and np.allclose(a, b)", "        return a.shape == b.shape and np.allclose(a, b, rtol=1e-2)")]),
     dict(name="composite pickle drops slots", edits=[(P_, "        for name in (\"time_dependent\", \"_cache\", \"_use_cache\"):\n            if hasattr(self, name):\n                state[name] = getattr(self, name)\n        return state", "        return state")]),
 ]
 
